@@ -56,6 +56,24 @@ R13.9  C14's R14.7 for final targets, evaluated here: for a pilot in a
        non-final state notified DONE / FAILED / CANCELED the last state
        _update_pilot hands Pilot._update is that state, and Pilot._update
        accepts every step into it.
+R13.10 C06's R06.4, evaluated here: a notification that raises by design in
+       the bulk loop of TaskManager._update_tasks (ValueError of
+       _task_state_progress, RuntimeError of Task._update) is caught inside
+       the loop by a handler that covers what the callees raise and goes on
+       with the next notification - the binding the scheduler made for
+       another task travels in the same bulk (R13.7).
+R13.11 keys of the FAILED update agree with Task._update: the entry whose
+       value names the ending pilot is under a key Task._update copies to an
+       attribute a property of Task returns, and every key Task._update
+       reads unconditionally by subscript is in the update.
+R13.12 Pilot._update invokes every callback of the registry: each invocation
+       of a value taken out of the registry sits in a loop over it, every
+       iteration invokes the callable of its element (skipped at most on a
+       test of that callable itself), no iteration leaves the loop, and the
+       loop runs over all entries (no proper slice).
+R13.8  also decides (in C14's R14.6) that a thing of another type - a task
+       update in the same bulk - does not make the pilot manager leave its
+       loop over the things.
 """
 
 import ast
@@ -63,7 +81,8 @@ import ast
 from ..model import (walk, dotted, call_name, kwarg, unparse, short, UNKNOWN,
                      root_name, AnalysisError, calls_in, stores_in_target)
 from ..cfg import cfg_of
-from ..flow import Deps, guards, loop_slice, assigned_names, must_pass
+from ..flow import (Deps, guards, loop_slice, assigned_names, must_pass,
+                    Exploration)
 from .. import idioms as I
 from .c15 import StateEval, Uneval, single_assign
 from .c12 import defs_reaching, stores_of
@@ -2546,6 +2565,430 @@ def r13_9(prog, rep, rid='R13.9'):
                     up.loc())
 
 
+# ------------------------------------------------------------------------------
+# R13.10: the binding the scheduler made arrives in a bulk of task
+# notifications (TaskManager._update_tasks -> Task._update, R13.7).  A
+# notification of that bulk which raises by design (a contradicting final
+# state: ValueError of _task_state_progress; an invalid step: RuntimeError of
+# Task._update) must not keep the notifications behind it from being applied:
+# the binding of another task is among them.  The rule is C06's R06.4,
+# evaluated under an id of this property.
+#
+def r13_10(prog, rep, rid='R13.10'):
+    from . import c06
+    fn = getattr(c06, 'r06_4', None)
+    if fn is None:
+        raise AnalysisError('%s: rule function c06.r06_4 not found' % rid)
+    n0 = len(rep.findings)
+    fn(prog, rep, rid=rid)
+    rep.rules[rid] = ('[C06 R06.4, necessary here: the binding the scheduler '
+                      'made for a task travels in a bulk of task '
+                      'notifications; a bulk that is aborted leaves the task '
+                      'unbound for the manager and it is not failed when its '
+                      'pilot ends] ' + rep.rules[rid])
+    for fd in rep.findings[n0:]:
+        if fd.rule == rid:
+            fd.history = (
+                'pilot p0 fails, its task t0 is reported FAILED; then one '
+                'bulk [t0: DONE (late message of the agent of p0), t1: '
+                'TMGR_STAGING_INPUT_PENDING with pilot=p1 (the binding the '
+                'scheduler made)] arrives: t0 raises, the bulk is aborted, '
+                't1.pilot stays unset; p1 ends: t1 is taken for a task of '
+                'another pilot and stays non-final forever'
+                + (' (%s)' % fd.history if fd.history else ''))
+
+
+# ------------------------------------------------------------------------------
+# R13.11: producer / consumer agreement on the keys of the FAILED update.
+# The callback hands Task._update a dict; Task._update copies the entries
+# whose keys it knows to attributes of the task and reads some entries by
+# subscript.  The entry that names the pilot must be under a key Task._update
+# copies to an attribute a property of Task returns (else the task is FAILED
+# without the explanation), and every key Task._update reads unconditionally by
+# subscript must be in the dict (else the update raises KeyError in the
+# callback and no task behind it is failed).
+#
+def mandatory_keys(f, src):
+    """keys f reads as `src[<literal>]` on every path from its entry (the
+    read is not control dependent on anything)"""
+    g = cfg_of(f)
+    smap = I.stmt_node_map(g)
+    out = {}
+    for n in walk(f.node):
+        if isinstance(n, ast.Subscript) and isinstance(n.ctx, ast.Load) and \
+                isinstance(n.value, ast.Name) and n.value.id == src and \
+                isinstance(n.slice, ast.Constant) and \
+                isinstance(n.slice.value, str):
+            node = smap.get(id(n))
+            if node is None or node.loops or node.tries:
+                continue
+            if guards(g, node.id):
+                continue
+            out.setdefault(n.slice.value, n)
+    return out
+
+
+def public_readers(prog, cls, attr):
+    """names of the properties of the class which return self.<attr>"""
+    out = []
+    for k in prog.mro(cls):
+        for name, m in sorted(k.methods.items()):
+            if not any(unparse(d).split('.')[-1] in ('property',
+                                                     'cached_property')
+                       for d in m.node.decorator_list):
+                continue
+            rets = {_self_attr(n.value) for n in walk(m.node)
+                    if isinstance(n, ast.Return)}
+            if rets == {attr}:
+                out.append(name)
+    return out
+
+
+def r13_11(prog, rep, f, rid='R13.11'):
+    rep.rule(rid, 'keys of the FAILED update agree with Task._update: the '
+             'entry that names the ending pilot is under a key Task._update '
+             'copies to an attribute a property of Task returns, and every '
+             'key Task._update reads unconditionally by subscript is in the '
+             'update', minimum=2)
+    final, failed = _consts(prog)
+    tk = prog.cls(*TASK)
+    upd = prog.method(TASK[0], TASK[1], '_update')
+    rep.saw(upd)
+    params = [p for p in upd.params if p != 'self']
+    if not params:
+        raise AnalysisError('anchor %s takes no notification' % upd.where)
+    copies, dynamic = dict_copies(prog, upd)
+    need = mandatory_keys(upd, params[0])
+    g = cfg_of(f)
+    smap = I.stmt_node_map(g)
+    d0 = Deps(f.node, implicit=False)
+    fparams = [p for p in f.params if p != 'self']
+    for call, tvar, dicts in failing_updates(prog, f, failed):
+        node = smap[id(call)]
+        pvars = [g.nodes[h].ast.target.id for h in node.loops
+                 if g.nodes[h].kind == 'for' and
+                 isinstance(g.nodes[h].ast.target, ast.Name) and fparams and
+                 fparams[0] in d0.expr_depends(g.nodes[h].ast.iter) and
+                 g.nodes[h].ast.target.id != tvar]
+        if not pvars:
+            raise AnalysisError('UNRECOGNISED-IDIOM %s: `%s` is not inside a '
+                                'loop over the pilots given to the callback'
+                                % (f.where, short(call, 60)))
+        pvar = pvars[-1]
+        uid = {pvar + '.uid', pvar + '._uid', "%s['uid']" % pvar}
+        ctext = short(call, 60)
+        for dl in dicts:
+            if any(k is None for k in dl.keys):
+                raise AnalysisError('UNRECOGNISED-IDIOM %s: the update `%s` '
+                                    'is built with ** from a dict that '
+                                    'cannot be named' % (f.where, ctext))
+            keys = {}
+            for k, v in zip(dl.keys, dl.values):
+                if not (isinstance(k, ast.Constant) and
+                        isinstance(k.value, str)):
+                    raise AnalysisError('UNRECOGNISED-IDIOM %s: a key of the '
+                                        'update `%s` is no string literal'
+                                        % (f.where, ctext))
+                keys.setdefault(k.value, v)
+            naming = sorted(k for k, v in keys.items()
+                            if d0.expr_depends(v) & uid)
+            if not naming:
+                continue            # R13.1 reports that nothing names the pilot
+            reach = []
+            for k in naming:
+                for attr, key in sorted(copies):
+                    if key == k and public_readers(prog, tk, attr):
+                        reach.append((k, attr))
+            if not reach and dynamic:
+                raise AnalysisError(
+                    'UNRECOGNISED-IDIOM %s: no copy of the entr%s %s is '
+                    'found, but `%s` writes an attribute whose name cannot '
+                    'be evaluated' % (upd.where,
+                                      'y' if len(naming) == 1 else 'ies',
+                                      ', '.join(map(repr, naming)),
+                                      short(dynamic[0], 60)))
+            known = sorted({k for a, k in copies})
+            rep.check(bool(reach), rid, f, '%s: the entry %r of `%s`, which '
+                      'names the ending pilot, is copied by %s to self.%s, '
+                      'which Task.%s returns'
+                      % ((f.qual, reach[0][0], ctext, upd.qual, reach[0][1],
+                          public_readers(prog, tk, reach[0][1])[0])
+                         if reach else (f.qual, '', ctext, upd.qual, '', '')),
+                      construct='%s [explanation key]' % ctext,
+                      message='%s: the explanation that names the ending pilot '
+                      'is handed to Task._update under the key%s %s, but %s '
+                      'copies only the entries %s of what it is handed (and '
+                      'ignores every other key): the task becomes FAILED, but '
+                      'neither Task.exception nor Task.exception_detail says '
+                      'which pilot took it down'
+                      % (f.qual, '' if len(naming) == 1 else 's',
+                         ', '.join(map(repr, naming)), upd.qual,
+                         ', '.join(known) or 'nothing'),
+                      loc=f.loc(call),
+                      history='pilot p1 FAILS with task t1 bound to it and '
+                      'executing: t1 is FAILED with exception_detail None - '
+                      'no part of the explanation mentions p1')
+            missing = sorted(k for k in need if k not in keys)
+            rep.check(not missing, rid, f, '%s: `%s` carries every key %s '
+                      'reads unconditionally by subscript (%s)'
+                      % (f.qual, ctext, upd.qual,
+                         ', '.join(sorted(need)) or 'none'),
+                      construct='%s [mandatory keys]' % ctext,
+                      message='%s: the update `%s` has no entry %s, which %s '
+                      'reads as `%s` on every path: the update raises '
+                      'KeyError inside the callback, this task and every '
+                      'task behind it in the loop stay as they are'
+                      % (f.qual, ctext, ', '.join(map(repr, missing)),
+                         upd.qual, short(need[missing[0]], 40)
+                         if missing else ''),
+                      loc=f.loc(call),
+                      history='pilot p1 ends with tasks t1, t2 bound to it: '
+                      'Task._update raises KeyError for t1, the callback is '
+                      'unwound, t1 and t2 stay non-final forever')
+
+
+# ------------------------------------------------------------------------------
+# R13.12: every registered callback is invoked.  Pilot._update walks the
+# registry Pilot.register_callback fills; TaskManager.add_pilots registered
+# _pilot_state_cb there - at whatever position (the application may register
+# callbacks of its own before and after).  So every invocation of a value taken
+# out of the registry sits in a loop over the registry, every iteration of
+# such a loop invokes the callable of its element (it may be skipped only on
+# a test of that callable itself), and the loop runs over the whole registry.
+#
+_WHOLE = ('list', 'tuple', 'sorted', 'iter', 'dict', 'reversed')
+
+
+def _registry_domain(f, g, it, at, registry, du, depth=0):
+    """'all' | 'part' | None: the iterable denotes every entry of the
+    registry / a slice of them / cannot be told"""
+    if depth > 6:
+        return None
+    if isinstance(it, ast.Call) and not it.keywords:
+        if isinstance(it.func, ast.Name) and it.func.id in _WHOLE and \
+                len(it.args) == 1:
+            return _registry_domain(f, g, it.args[0], at, registry, du,
+                                    depth + 1)
+        if isinstance(it.func, ast.Attribute) and not it.args and \
+                it.func.attr in ('items', 'values', 'keys', 'copy'):
+            return _registry_domain(f, g, it.func.value, at, registry, du,
+                                    depth + 1)
+        return None
+    if isinstance(it, ast.Subscript):
+        if isinstance(it.slice, ast.Slice):
+            sl = it.slice
+            triv = all(x is None or isinstance(x, ast.Constant) and
+                       x.value is None for x in (sl.lower, sl.upper)) and (
+                sl.step is None or isinstance(sl.step, ast.Constant) and
+                sl.step.value in (None, 1, -1))
+            base = _registry_domain(f, g, it.value, at, registry, du,
+                                    depth + 1)
+            if base is None:
+                return None
+            return base if triv else 'part'
+        # self._callbacks[<metric>]: the table of one metric
+        if _self_attr(it.value) is not None and \
+                'self.' + it.value.attr in registry:
+            return 'all'
+        return None
+    if isinstance(it, ast.Attribute) and _self_attr(it) is not None and \
+            'self.' + it.attr in registry:
+        return 'all'
+    if isinstance(it, ast.Name):
+        defs, undef = defs_reaching(g, it.id, at)
+        if undef or not defs:
+            return None
+        res = set()
+        for d in defs:
+            if d.kind != 'stmt' or not isinstance(d.ast, ast.Assign) or \
+                    len(d.ast.targets) != 1 or \
+                    not isinstance(d.ast.targets[0], ast.Name):
+                return None
+            res.add(_registry_domain(f, g, d.ast.value, d.id, registry, du,
+                                     depth + 1))
+        if None in res:
+            return None
+        return 'part' if 'part' in res else 'all'
+    return None
+
+
+def r13_12(prog, rep, rid='R13.12'):
+    rep.rule(rid, 'Pilot._update invokes every callback of the registry '
+             'Pilot.register_callback fills: each invocation of a value taken '
+             'out of it sits in a loop over the registry, every iteration of '
+             'that loop invokes the callable of its element, and the loop '
+             'runs over all entries', minimum=2)
+    upd, g, smap, registry, calls, own, du = pilot_dispatch(prog)
+    rep.saw(upd)
+    HIST = ('tmgr.add_pilots(p1) registers _pilot_state_cb on p1; the '
+            'application then registers a callback of its own '
+            '(p1.register_callback(cb)); task t1 is bound to p1 and '
+            'executing; p1 FAILS')
+    heads = {}
+    for n in g.nodes:
+        if n.kind == 'for' and du.expr_depends(n.ast.iter) & registry:
+            heads[n.id] = n
+    if not heads:
+        raise AnalysisError('UNRECOGNISED-IDIOM %s: no loop over the callback '
+                            'registry %s found' % (upd.where, sorted(registry)))
+
+    def elem_names(h):
+        """names that hold (a part of) the element of the loop"""
+        base = set(stores_in_target(h.ast.target))
+        out = set(base)
+        for name, deps in du.edges.items():
+            if '.' in name or '[' in name:
+                continue
+            if du.closure(name) & base:
+                out.add(name)
+        return out
+
+    per_loop = {}
+    for o in own:
+        on = smap[id(o)]
+        mine = [h for h in on.loops if h in heads and
+                du.expr_depends(o.func) & elem_names(heads[h])]
+        if mine:
+            per_loop.setdefault(mine[-1], []).append(o)
+            continue
+        outer = [h for h in heads.values()
+                 if du.expr_depends(o.func) & elem_names(h)]
+        if not outer:
+            raise AnalysisError('UNRECOGNISED-IDIOM %s: `%s` invokes a value '
+                                'of %s that is not the element of a loop over '
+                                'it' % (upd.where, short(o, 50),
+                                        sorted(registry)))
+        rep.bad(rid, upd, '%s outside the loop' % short(o, 50),
+                '%s: `%s` invokes a callback taken out of the registry %s by '
+                'the loop `for %s in %s`, but the invocation is not part of '
+                'the body of that loop: it runs once, after the loop, with '
+                'what the last iteration left in the local - only the callback '
+                'registered last is invoked (none, and a NameError, for an '
+                'empty registry).  TaskManager.add_pilots registered '
+                '_pilot_state_cb in that registry: when the application '
+                'registers a callback of its own after add_pilots, the task '
+                'manager is not told that the pilot ended'
+                % (upd.qual, short(o, 50), ', '.join(sorted(registry)),
+                   short(outer[0].ast.target, 30), short(outer[0].ast.iter, 50)),
+                upd.loc(o), history=HIST + ': only cb runs, t1 stays '
+                'non-final forever (wait_tasks hangs)')
+    for hid, h in sorted(heads.items()):
+        sites = per_loop.get(hid, [])
+        if not sites:
+            continue
+        ids = {smap[id(o)].id for o in sites}
+        cnames = set()
+        for o in sites:
+            if isinstance(o.func, ast.Name):
+                cnames.add(o.func.id)
+
+        def absent_edge(test):
+            """label of the edge a test of the callable itself takes when
+            there is nothing to call"""
+            pol = True
+            while isinstance(test, ast.UnaryOp) and \
+                    isinstance(test.op, ast.Not):
+                test, pol = test.operand, not pol
+            present = None
+            if isinstance(test, ast.Name) and test.id in cnames:
+                present = True
+            elif isinstance(test, ast.Call) and dotted(test.func) == \
+                    'callable' and len(test.args) == 1 and \
+                    isinstance(test.args[0], ast.Name) and \
+                    test.args[0].id in cnames:
+                present = True
+            elif isinstance(test, ast.Compare) and len(test.ops) == 1 and \
+                    isinstance(test.left, ast.Name) and \
+                    test.left.id in cnames and \
+                    isinstance(test.comparators[0], ast.Constant) and \
+                    test.comparators[0].value is None and \
+                    isinstance(test.ops[0], (ast.Is, ast.IsNot, ast.Eq,
+                                             ast.NotEq)):
+                present = isinstance(test.ops[0], (ast.IsNot, ast.NotEq))
+            if present is None:
+                return None
+            return 'F' if present == pol else 'T'
+
+        def transfer(node, edge, st):
+            if edge.label == 'exc':
+                return None
+            if node.kind == 'test' and edge.label in ('T', 'F') and \
+                    absent_edge(node.ast) == edge.label:
+                return None
+            if node.id in ids:
+                return 1
+            return st
+
+        start, stop, stop_edge = loop_slice(g, hid)
+        ex = Exploration(g, start, 0, transfer, stop=stop, stop_edge=stop_edge)
+        missed = None
+        left = None
+        for t in ex.terminals:
+            if t.via == 'exc':
+                continue
+            path = ex.path(t)
+            back = bool(path) and path[-1].back and path[-1].dst == hid
+            if back and not t.state and missed is None:
+                missed = ex.literals(t)
+            if path and not back and left is None:
+                left = (g.nodes[path[-1].src].ast, ex.literals(t))
+        rep.check(left is None, rid, upd, '%s: no iteration of `for %s in '
+                  '%s` leaves the loop (return / break)'
+                  % (upd.qual, short(h.ast.target, 30), short(h.ast.iter, 50)),
+                  construct='loop %s [left early]' % short(h.ast.iter, 40),
+                  message='%s: an iteration of the loop `for %s in %s` over '
+                  'the callback registry leaves the loop (`%s`%s): the '
+                  'callbacks behind that entry are never invoked - '
+                  'TaskManager.add_pilots registers _pilot_state_cb in that '
+                  'registry, at whatever position the application\'s own '
+                  'registrations leave it'
+                  % ((upd.qual, short(h.ast.target, 30), short(h.ast.iter, 50),
+                      short(left[0], 40), ' when [%s]' % ' ; '.join(left[1])
+                      if left[1] else '') if left else
+                     (upd.qual, '', '', '', '')),
+                  loc=upd.loc(left[0]) if left else upd.loc(h.ast),
+                  history='the application registers cb on p1 '
+                  '(p1.register_callback(cb)), then tmgr.add_pilots(p1); task '
+                  't1 is bound to p1 and executing; p1 FAILS: cb runs, the '
+                  'loop ends, _pilot_state_cb is not invoked and t1 stays '
+                  'non-final forever')
+        rep.check(missed is None, rid, upd, '%s: every iteration of `for %s '
+                  'in %s` invokes the callback of its element (%d call '
+                  'site(s))' % (upd.qual, short(h.ast.target, 30),
+                                short(h.ast.iter, 50), len(sites)),
+                  construct='loop %s [every element invoked]'
+                  % short(h.ast.iter, 40),
+                  message='%s: an iteration of the loop `for %s in %s` over '
+                  'the callback registry can end without invoking the '
+                  'callback of its element [%s]: a registered callback - '
+                  'TaskManager.add_pilots registers _pilot_state_cb there - '
+                  'is skipped, and the task manager is not told that the '
+                  'pilot ended' % (upd.qual, short(h.ast.target, 30),
+                                   short(h.ast.iter, 50),
+                                   ' ; '.join(missed or [])),
+                  loc=upd.loc(h.ast), history=HIST + ' (a callback for which '
+                  '[%s] holds is not invoked): t1 stays non-final forever'
+                  % ' ; '.join(missed or []))
+        dom = _registry_domain(upd, g, h.ast.iter, hid, registry, du)
+        if dom is None:
+            rep.info(rid, upd, 'the iterable `%s` of the dispatch loop is not '
+                     'recognised as the whole registry or a slice of it: its '
+                     'domain is not decided' % short(h.ast.iter, 50),
+                     upd.loc(h.ast))
+            continue
+        rep.check(dom == 'all', rid, upd, '%s: the dispatch loop runs over '
+                  'all entries of the registry (`%s`)'
+                  % (upd.qual, short(h.ast.iter, 50)),
+                  construct='loop %s [domain]' % short(h.ast.iter, 40),
+                  message='%s: the dispatch loop iterates `%s`, a slice of the '
+                  'registered callbacks: the callbacks cut off are never '
+                  'invoked - _pilot_state_cb of the task manager is one of '
+                  'the registered callbacks' % (upd.qual,
+                                                short(h.ast.iter, 50)),
+                  loc=upd.loc(h.ast), history=HIST + ': the entry cut off by '
+                  'the slice is not invoked')
+
+
 def kwarg_name(regfn):
     """name of the metric parameter of Pilot.register_callback"""
     for p in regfn.params:
@@ -2582,11 +3025,22 @@ def run(prog, rep, tier):
         'notification of a bulk message reaches _update_pilot, and a final '
         'state notified for a pilot in any non-final state is the last '
         'state handed to - and accepted by - Pilot._update (R14.6 and the '
-        'final-target part of R14.7, evaluated here).')
+        'final-target part of R14.7, evaluated here); a thing of another '
+        'type in the same bulk does not end the pilot manager\'s loop; a '
+        'task notification that raises by design does not abort the bulk '
+        'of TaskManager._update_tasks in which the binding of another task '
+        'travels (R06.4, evaluated here); the entry of the FAILED update '
+        'that names the pilot is under a key Task._update copies to an '
+        'attribute a Task property returns, and the update carries every key '
+        'Task._update reads unconditionally; Pilot._update invokes the '
+        'callable of every entry of the callback registry (invocation inside '
+        'the loop over the registry, on every path of an iteration, loop not '
+        'left early, whole registry iterated).')
     rep.undecided = ('the transport of the notifications (pubsub bridges, '
         'C16) and the stickiness of final task states inside Task._update '
         '(C06); that TaskManager._update_tasks hands every task '
-        'notification to Task._update (C05/C06).  Not decided: isolation between the '
+        'notification that does not raise to Task._update (C05/C06).  Not '
+        'decided: isolation between the '
         'callbacks of the SAME registry - an application callback registered '
         'with pilot.register_callback before tmgr.add_pilots runs before '
         '_pilot_state_cb in Pilot._update and, if it raises, hides it (this '
@@ -2622,6 +3076,11 @@ def run(prog, rep, tier):
         'add_pilots fills, from what add_pilots / the callback are handed, '
         'or when the called method exists on Pilot only; close ends the '
         'manager, what it unregisters is not reported',
+        'R13.11: the update is a dict display / dict(..) call (possibly via a '
+        'local) with literal keys; Task._update ignores keys it does not '
+        'name (it copies a literal collection of keys)',
+        'R13.12: a test of the callable itself (`if cb`, `cb is None`, '
+        'callable(cb)`) may skip an entry: a registered callback is callable',
         'R13.4: a call of a value taken out of data (loop element, subscript, '
         '.get(), parameter) is a callback of the application and may raise; '
         'try/except Exception (or broader) without re-raise isolates it; '
@@ -2648,6 +3107,9 @@ def run(prog, rep, tier):
     r13_7(prog, rep, shared.get('task_reads', set()))
     r13_8(prog, rep)
     r13_9(prog, rep)
+    r13_10(prog, rep)
+    r13_11(prog, rep, f)
+    r13_12(prog, rep)
     if tier == 'thorough':
         # sweep: the same rule on every other method of the package's manager
         # classes that fails tasks because of a pilot (none today)
@@ -3297,4 +3759,195 @@ SILENT = [
     dict(name='R13.4 bound logger method cached in a local before the dispatch', edits=[
         (_PL, _WITH, "        debug = self._log.debug\n"
                      "        debug('%s invokes callbacks', self.uid)\n\n" + _WITH)]),
+]
+
+
+# ------------------------------------------------------------------------------
+# round 5: R13.10 (bulk isolation, C06 R06.4), R13.11 (keys of the update),
+# R13.12 (every registered callback is invoked), R13.8 extended (a task thing
+# does not end the pilot manager's loop)
+#
+_HANDLER = ("                except Exception:\n"
+            "                    # a contradicting or invalid update for one task must not\n"
+            "                    # prevent the updates of the other tasks in this bulk\n"
+            "                    self._log.exception('tmgr: invalid state update: %s', uid)\n"
+            "                    continue\n")
+_AFTER = ("\n                task_dict['state'] = self._tasks[uid].state\n"
+          "                ru.dict_merge(self._task_info[uid], task_dict, ru.OVERWRITE)\n")
+_REPLAY = ("                try:\n"
+           "                    target, passed = rps._task_state_progress(uid, current,\n"
+           "                                                              target)\n\n"
+           "                    if target in [rps.CANCELED, rps.FAILED]:\n"
+           "                        # don't replay intermediate states\n"
+           "                        passed = passed[-1:]\n\n"
+           "                    for s in passed:\n\n"
+           "                        task_dict['state'] = s\n"
+           "                        self._tasks[uid]._update(task_dict)\n\n"
+           "                        to_notify.append([task, s])\n\n")
+_CALLS = ("                if cb_data: cb([self], cb_data)\n"
+          "                else      : cb([self])\n\n")
+_DETAIL = "'exception_detail': 'pilot %s is final' % pid,"
+_PTEST = "            if 'type' in thing and thing['type'] == 'pilot':\n"
+_ASSERT = "        assert task_dict['uid'] == self.uid, 'update called on wrong instance'\n\n        # this method relies on state updates to arrive in order\n"
+
+MUTATIONS += [
+    dict(name='R13.10 seed C13-h2: the per-task handler of _update_tasks narrowed to RuntimeError',
+         rules=('R13.10',), edits=[
+        (_TM, "                except Exception:\n                    # a contradicting", "                except RuntimeError:\n                    # a contradicting")],
+         note='the ValueError of a contradicting final state aborts the bulk: the binding of the next task is lost'),
+    dict(name='R13.10 the handler catches only the ValueError of _task_state_progress',
+         rules=('R13.10',), edits=[
+        (_TM, "                except Exception:\n                    # a contradicting", "                except ValueError:\n                    # a contradicting")],
+         note='the RuntimeError of Task._update (invalid step) aborts the bulk'),
+    dict(name='R13.10 the handler ends the loop over the bulk', rules=('R13.10',), edits=[
+        (_TM, _HANDLER, _HANDLER.replace('continue', 'break'))]),
+    dict(name='R13.11 seed C13-h6: explanation handed over as exception_details',
+         rules=('R13.11',), edits=[
+        (_TM, _DETAIL, "'exception_details': 'pilot %s is final' % pid,")]),
+    dict(name='R13.11 explanation key with changed case', rules=('R13.11',), edits=[
+        (_TM, _DETAIL, "'Exception_detail': 'pilot %s is final' % pid,")]),
+    dict(name='R13.11 consumer side: Task._update copies exception_details',
+         rules=('R13.11',), edits=[
+        (_TK, "                    'exception', 'exception_detail', 'slots', 'partition',",
+              "                    'exception', 'exception_details', 'slots', 'partition',")],
+         note='the same disagreement made at the other end: self._exception_detail is never written'),
+    dict(name='R13.11 the uid of the task handed over as id', rules=('R13.11',), edits=[
+        (_TM, "                    update = {'uid'             : task.uid,", "                    update = {'id'              : task.uid,")],
+         note='Task._update reads task_dict[\'uid\']: KeyError inside the callback'),
+    dict(name='R13.12 seed C13-h3: the invocation dedented out of the loop over the callbacks',
+         rules=('R13.12',), edits=[
+        (_PL, _CALLS, "            if cb_data: cb([self], cb_data)\n"
+                      "            else      : cb([self])\n\n")]),
+    dict(name='R13.12 callbacks registered without data are not invoked (else arm lost)',
+         rules=('R13.12',), edits=[
+        (_PL, _CALLS, "                if cb_data: cb([self], cb_data)\n\n")]),
+    dict(name='R13.12 the loop is left after the first callback', rules=('R13.12',), edits=[
+        (_PL, _CALLS, _CALLS + "                break\n\n")]),
+    dict(name='R13.12 only the callback registered last is looked at', rules=('R13.12',), edits=[
+        (_PL, "            for _,cb_val in self._callbacks[rpc.PILOT_STATE].items():\n",
+              "            for _,cb_val in list(self._callbacks[rpc.PILOT_STATE].items())[-1:]:\n")]),
+    dict(name='R13.12 the loop skips the callback registered first', rules=('R13.12',), edits=[
+        (_PL, "            for _,cb_val in self._callbacks[rpc.PILOT_STATE].items():\n",
+              "            for cb_val in list(self._callbacks[rpc.PILOT_STATE].values())[1:]:\n")]),
+    dict(name='R13.8 seed C13-h4: a task thing makes the pilot manager return from the loop',
+         rules=('R13.8',), edits=[
+        (_PM, "        for thing in things:\n\n" + _PTEST,
+              "        for thing in things:\n\n"
+              "            if thing.get('type') == 'task':\n"
+              "                # task updates are handled by the tmgr\n"
+              "                return True\n\n" + _PTEST)]),
+    dict(name='R13.8 anything that is no pilot ends the loop (break)', rules=('R13.8',), edits=[
+        (_PM, "        for thing in things:\n\n" + _PTEST,
+              "        for thing in things:\n\n"
+              "            if thing['type'] != 'pilot':\n"
+              "                break\n\n" + _PTEST)]),
+    dict(name='R13.8 the else arm of the pilot test returns', rules=('R13.8',), edits=[
+        (_PM, _UPP, _UPP + "\n            else:\n                return True\n")]),
+    dict(name='R13.8 task test held by a local, break', rules=('R13.8',), edits=[
+        (_PM, "        for thing in things:\n\n" + _PTEST,
+              "        for thing in things:\n\n"
+              "            is_task = thing.get('type') == 'task'\n"
+              "            if is_task:\n"
+              "                break\n\n" + _PTEST)]),
+]
+
+SILENT += [
+    # ---- R13.10: rewrites of the per-task handler in _update_tasks
+    dict(name='R13.10 handler binds the exception and logs it', edits=[
+        (_TM, _HANDLER, "                except Exception as exc:\n"
+                        "                    self._log.exception('tmgr: invalid state update: %s: %s', uid, exc)\n"
+                        "                    continue\n")]),
+    dict(name='R13.10 try / except / else: the bookkeeping moved into the else arm', edits=[
+        (_TM, _HANDLER + _AFTER,
+              _HANDLER.replace("                    continue\n", "") +
+              "\n                else:\n"
+              "                    task_dict['state'] = self._tasks[uid].state\n"
+              "                    ru.dict_merge(self._task_info[uid], task_dict, ru.OVERWRITE)\n")]),
+    dict(name='R13.10 replay extracted into a method, called inside the try', edits=[
+        (_TM, _REPLAY, "                try:\n"
+                       "                    self._replay_states(task, uid, current, target,\n"
+                       "                                        task_dict, to_notify)\n\n"),
+        (_TM, "    # --------------------------------------------------------------------------\n    #\n    def _task_cb(self, task, state):\n",
+              "    # --------------------------------------------------------------------------\n    #\n"
+              "    def _replay_states(self, task, uid, current, target, task_dict, to_notify):\n\n"
+              "        target, passed = rps._task_state_progress(uid, current, target)\n\n"
+              "        if target in [rps.CANCELED, rps.FAILED]:\n"
+              "            passed = passed[-1:]\n\n"
+              "        for s in passed:\n"
+              "            task_dict['state'] = s\n"
+              "            self._tasks[uid]._update(task_dict)\n"
+              "            to_notify.append([task, s])\n\n\n"
+              "    # --------------------------------------------------------------------------\n    #\n    def _task_cb(self, task, state):\n")]),
+    # ---- R13.11: rewrites of the update dict and of what Task._update reads
+    dict(name='R13.11 update built by dict() with keywords, explanation as f-string', edits=[
+        (_TM, "                    update = {'uid'             : task.uid,\n"
+              "                              'exception'       : 'RuntimeError(\"pilot died\")',\n"
+              "                              'exception_detail': 'pilot %s is final' % pid,\n"
+              "                              'state'           : rps.FAILED}\n",
+              "                    update = dict(uid=task.uid,\n"
+              "                                  exception='RuntimeError(\"pilot died\")',\n"
+              "                                  exception_detail=f'pilot {pid} is final',\n"
+              "                                  state=rps.FAILED)\n")]),
+    dict(name='R13.11 explanation hoisted in front of the task loop, entries reordered', edits=[
+        (_TM, "                tasks = list()\n" + _HEAD, "                why   = 'pilot %s is final' % pid\n                tasks = list()\n" + _HEAD),
+        (_TM, "                    update = {'uid'             : task.uid,\n"
+              "                              'exception'       : 'RuntimeError(\"pilot died\")',\n"
+              "                              'exception_detail': 'pilot %s is final' % pid,\n"
+              "                              'state'           : rps.FAILED}\n",
+              "                    update = {'state'           : rps.FAILED,\n"
+              "                              'exception_detail': why,\n"
+              "                              'exception'       : 'RuntimeError(\"pilot died\")',\n"
+              "                              'uid'             : task.uid}\n")]),
+    dict(name='R13.11 Task._update reads the uid into a local and raises itself', edits=[
+        (_TK, _ASSERT,
+              "        uid = task_dict['uid']\n"
+              "        if uid != self.uid:\n"
+              "            raise AssertionError('update called on wrong instance')\n\n"
+              "        # this method relies on state updates to arrive in order\n")]),
+    dict(name='R13.11 the pilot is named in both entries', edits=[
+        (_TM, "'exception'       : 'RuntimeError(\"pilot died\")',", "'exception'       : 'RuntimeError(\"pilot %s died\")' % pid,")],
+         note='not the same text, but the explanation still names the pilot under keys Task._update copies'),
+    # ---- R13.12: rewrites of the dispatch loop in Pilot._update
+    dict(name='R13.12 invocation with data in early-continue form', edits=[
+        (_PL, _CALLS, "                if cb_data:\n"
+                      "                    cb([self], cb_data)\n"
+                      "                    continue\n\n"
+                      "                cb([self])\n\n")]),
+    dict(name='R13.12 loop over a snapshot of the keys, entry looked up per key', edits=[
+        (_PL, "            for _,cb_val in self._callbacks[rpc.PILOT_STATE].items():\n\n",
+              "            for cb_id in list(self._callbacks[rpc.PILOT_STATE]):\n\n"
+              "                cb_val  = self._callbacks[rpc.PILOT_STATE][cb_id]\n")]),
+    dict(name='R13.12 argument tuple chosen by a conditional expression, one call', edits=[
+        (_PL, _CALLS, "                args = ([self], cb_data) if cb_data else ([self],)\n"
+                      "                cb(*args)\n\n")]),
+    dict(name='R13.12 invocation extracted into a helper method of the pilot', edits=[
+        (_PL, _CALLS, "                self._invoke_cb(cb, cb_data)\n\n"),
+        (_PL, "    # --------------------------------------------------------------------------\n    #\n    def as_dict(self):\n        \"\"\"Dictionary representation.\n",
+              "    # --------------------------------------------------------------------------\n    #\n"
+              "    def _invoke_cb(self, cb, cb_data):\n\n"
+              "        if cb_data: cb([self], cb_data)\n"
+              "        else      : cb([self])\n\n\n"
+              "    # --------------------------------------------------------------------------\n    #\n    def as_dict(self):\n        \"\"\"Dictionary representation.\n")]),
+    dict(name='R13.12 whole registry table copied before the loop (trivial slice of the items)', edits=[
+        (_PL, "            for _,cb_val in self._callbacks[rpc.PILOT_STATE].items():\n",
+              "            for _,cb_val in list(self._callbacks[rpc.PILOT_STATE].items())[:]:\n")]),
+    # ---- R13.8: task things in the pilot manager's loop
+    dict(name='R13.8 task things skipped by an explicit continue (what the fast path meant)', edits=[
+        (_PM, "        for thing in things:\n\n" + _PTEST,
+              "        for thing in things:\n\n"
+              "            if thing.get('type') == 'task':\n"
+              "                # task updates are handled by the tmgr\n"
+              "                continue\n\n" + _PTEST)]),
+    dict(name='R13.8 type read into a local, non-pilots logged and skipped', edits=[
+        (_PM, "        for thing in things:\n\n" + _PTEST,
+              "        for thing in things:\n\n"
+              "            kind = thing.get('type')\n"
+              "            if kind != 'pilot':\n"
+              "                self._log.debug('pmgr ignores %s update', kind)\n"
+              "                continue\n\n" + _PTEST)]),
+    dict(name='R13.8 the kinds that are not for the pilot manager listed, skipped with continue', edits=[
+        (_PM, "        for thing in things:\n\n" + _PTEST,
+              "        for thing in things:\n\n"
+              "            if thing.get('type') in ['task', 'service']:\n"
+              "                continue\n\n" + _PTEST)]),
 ]
